@@ -13,6 +13,7 @@ import (
 	"strconv"
 	"strings"
 	"sync"
+	"time"
 )
 
 type table struct {
@@ -306,6 +307,30 @@ func clockAdvance(dt float64, ns int64) {
 	mu.Lock()
 	nowNs += ns
 	mu.Unlock()
+}
+
+// Now is the virtual clock as a time.Time (native runs only; the engine intercepts time.Now).
+func Now() time.Time { return time.Unix(1700000000, 0).Add(time.Duration(NowNs())) }
+
+var havoc = map[string]bool{}
+
+// EnableHavoc makes the named leaf return an arbitrary value (a fresh Float64 of that name) on
+// every call from now on: the engine intercepts the leaf, native runs use the rewritten leaf.
+func EnableHavoc(name string) {
+	mu.Lock()
+	havoc[name] = true
+	mu.Unlock()
+}
+
+// Havoc is called by rewritten leaves in native runs.
+func Havoc(name string) (float64, bool) {
+	mu.Lock()
+	on := havoc[name]
+	mu.Unlock()
+	if !on {
+		return 0, false
+	}
+	return Float64(name), true
 }
 
 // NowNs is the virtual clock reading used by overlay copies of clock-reading files.
